@@ -386,7 +386,7 @@ func (fc *fnCtx) callSiteClauses(st *State, ce *callee, args []Val, pos token.Po
 		}
 		env.vars = vars
 		goal := Imp(cond, fc.evalClause(env, ca.Clause))
-		fc.oblige(st, "callassert."+bn, goal, pos, nil, ca.Clause.Text)
+		fc.oblige(st, "callassert."+bn, goal, pos, ca.Clause.Props, ca.Clause.Text)
 	}
 	for _, ca := range fc.con.CallAssumes {
 		if ca.Callee != bn {
@@ -558,13 +558,14 @@ func (fc *fnCtx) havocAssigns(st *State, env *Env, con *Contract) {
 }
 
 // assigns targets:
-//   x.f            the field f of object x (all leaves if f is a struct)
-//   *p             the cell / struct p points to
-//   elems(s)       the backing array of slice s
-//   map(m)         the content of map m
-//   all(T.f)       field f of every object of struct type T
-//   allelems(T)    every backing array with element type T
-//   heap           everything
+//
+//	x.f            the field f of object x (all leaves if f is a struct)
+//	*p             the cell / struct p points to
+//	elems(s)       the backing array of slice s
+//	map(m)         the content of map m
+//	all(T.f)       field f of every object of struct type T
+//	allelems(T)    every backing array with element type T
+//	heap           everything
 func (fc *fnCtx) applyHavoc(st *State, tg assignTarget) {
 	switch tg.kind {
 	case "everything":
